@@ -212,6 +212,12 @@ MONTHS = ["January", "February", "March", "April", "May", "June", "July", "Augus
           "December"]
 
 
+def _days(eng, v):
+    if v.days is not None:
+        return v.days
+    return eng.op("FloorDiv", _need(v, "datetime"), DAY_US)
+
+
 def _pad(eng, v, width):
     from .strmodels import str_method
     s = eng.int_to_str(v) if is_sym(v) else str(v)
@@ -293,7 +299,7 @@ def strftime(eng, v, fmt):
                 raise Unsupported("%W without fields")
             # week of year, Monday first: (yday + 7 - weekday) // 7 with yday 0-based, weekday Monday=0
             yday0 = eng.op("Sub", day_of_year(eng, v), 1)
-            wd = eng.op("Mod", eng.op("FloorDiv", v.us, DAY_US), 7)
+            wd = eng.op("Mod", _days(eng, v), 7)
             out.append(_pad(eng, eng.op("FloorDiv", eng.op("Sub", eng.op("Add", yday0, 7), wd), 7), 0 if nopad else 2))
         elif code == "%":
             out.append("%")
@@ -319,7 +325,7 @@ def dt_attr(eng, v, name):
         return {"year": y, "month": m, "day": d}[name]
     if name == "tzinfo":
         return None
-    if name in ("weekday", "isoweekday", "toordinal", "timetuple", "replace", "date", "strftime", "isoformat",
+    if name in ("weekday", "isoweekday", "isocalendar", "toordinal", "timetuple", "replace", "date", "strftime", "isoformat",
                 "astimezone", "timestamp", "time"):
         return DTMethod(v, name)
     raise AttributeError(name)
@@ -360,11 +366,13 @@ class DTMethod:
                 return eng.as_float(eng.op("FloorDiv", us, US))
             return SymFloat(quot=(us, US)) if eng.must(eng.cmp("GtE", us, 0)) else eng.float_binop(ast.Div(), eng.as_float(us), float(US))
         if n == "weekday":
-            days = eng.op("FloorDiv", _need(v, "datetime"), DAY_US)
+            days = _days(eng, v)
             return eng.op("Mod", days, 7)       # 0001-01-01 is a Monday
         if n == "isoweekday":
-            days = eng.op("FloorDiv", _need(v, "datetime"), DAY_US)
+            days = _days(eng, v)
             return eng.op("Add", eng.op("Mod", days, 7), 1)
+        if n == "isocalendar":
+            return isocalendar(eng, v)
         if n == "toordinal":
             return eng.op("Add", eng.op("FloorDiv", _need(v, "datetime"), DAY_US), 1)
         if n == "strftime":
@@ -381,6 +389,39 @@ class DTMethod:
         raise Unsupported("datetime method " + n)
 
 
+def _leap_term(eng, year):
+    return eng.and_(eng.cmp("Eq", eng.op("Mod", year, 4), 0),
+                    eng.or_(eng.cmp("NotEq", eng.op("Mod", year, 100), 0), eng.cmp("Eq", eng.op("Mod", year, 400), 0)))
+
+
+def _days_before_year(eng, year):
+    """days from 0001-01-01 to 1 January of `year` (CPython's _days_before_year)"""
+    ym = eng.op("Sub", year, 1)
+    return eng.op("Add", eng.op("Sub", eng.op("Add", eng.op("Mult", ym, 365), eng.op("FloorDiv", ym, 4)),
+                                eng.op("FloorDiv", ym, 100)), eng.op("FloorDiv", ym, 400))
+
+
+def isocalendar(eng, v):
+    """(ISO year, ISO week, ISO weekday): the week belongs to the year that holds its Thursday"""
+    if v.fields is None:
+        raise Unsupported("isocalendar on a datetime not built from fields")
+    year = v.fields[0]
+    days = _days(eng, v)
+    wd = eng.op("Mod", days, 7)
+    thursday = eng.op("Add", eng.op("Sub", days, wd), 3)
+    jan1 = _days_before_year(eng, year)
+    if eng.truth(eng.cmp("Lt", thursday, jan1)):
+        iso_year = eng.op("Sub", year, 1)
+        jan1 = _days_before_year(eng, iso_year)
+    elif eng.truth(eng.cmp("GtE", thursday, _days_before_year(eng, eng.op("Add", year, 1)))):
+        iso_year = eng.op("Add", year, 1)
+        jan1 = _days_before_year(eng, iso_year)
+    else:
+        iso_year = year
+    week = eng.op("Add", eng.op("FloorDiv", eng.op("Sub", thursday, jan1), 7), 1)
+    return (iso_year, week, eng.op("Add", wd, 1))
+
+
 def m_datetime(eng, year, month=None, day=None, hour=0, minute=0, second=0, microsecond=0, tzinfo=None, **kw):
     args = [year, month, day, hour, minute, second, microsecond]
     if not any(is_sym(a) for a in args):
@@ -394,14 +435,18 @@ def m_datetime(eng, year, month=None, day=None, hour=0, minute=0, second=0, micr
             raise ValueError(f"{nm} is out of range")
     if is_sym(month):
         month = eng.concretize_int(month, "month")
-    y = year if month > 2 else eng.op("Sub", year, 1)
-    era = eng.op("FloorDiv", y, 400)
-    yoe = eng.op("Mod", y, 400)
-    mp = month - 3 if month > 2 else month + 9
-    doy = eng.op("Add", (153 * mp + 2) // 5, eng.op("Sub", day, 1))
-    doe = eng.op("Add", eng.op("Sub", eng.op("Add", eng.op("Mult", yoe, 365), eng.op("FloorDiv", yoe, 4)),
-                               eng.op("FloorDiv", yoe, 100)), doy)
-    days = eng.op("Sub", eng.op("Add", eng.op("Mult", era, 146097), doe), 306)
+    days = _days_before_year(eng, year)
+    leap_t = None
+    days = eng.op("Add", days, CUM_DAYS[month - 1])
+    if month > 2:
+        # one shared term per year (days before 1 January) + days before the month + leap day as an if-then-else:
+        # dates of the same year differ by a linear term, which is what weekday / week-number reasoning needs
+        leap_t = _leap_term(eng, year)
+        if isinstance(leap_t, SymBool):
+            days = eng.op("Add", days, eng.define_var("leapday", z3.If(leap_t.t, z3.IntVal(1), z3.IntVal(0)), 0, 1))
+        elif leap_t:
+            days = eng.op("Add", days, 1)
+    days = eng.op("Add", days, eng.op("Sub", day, 1))
     # day validity
     leap = eng.and_(eng.cmp("Eq", eng.op("Mod", year, 4), 0),
                     eng.or_(eng.cmp("NotEq", eng.op("Mod", year, 100), 0), eng.cmp("Eq", eng.op("Mod", year, 400), 0)))
@@ -412,7 +457,7 @@ def m_datetime(eng, year, month=None, day=None, hour=0, minute=0, second=0, micr
         raise ValueError("day is out of range for month")
     secs = eng.op("Add", eng.op("Add", eng.op("Mult", hour, 3600), eng.op("Mult", minute, 60)), second)
     us = eng.op("Add", eng.op("Add", eng.op("Mult", days, DAY_US), eng.op("Mult", secs, US)), microsecond)
-    return SymDT(us, fields=(year, month, day, hour, minute, second, microsecond))
+    return SymDT(us, fields=(year, month, day, hour, minute, second, microsecond), days=days)
 
 
 def install(eng):
